@@ -28,6 +28,9 @@ def make_corpus(c, nflow, npar, nscen, seed_off=0, par_exec=0, features=None, pr
     if progs is None:
         flows = [render.gen_flow(rng, "F%d" % i) for i in range(1, nflow + 1)]
         pars = [render.gen_parallel(rng, "P%d" % i) for i in range(1, npar + 1)]
+        if npar >= 20:
+            # collections larger than any byte-sized counter, with End hooks
+            pars += [render.gen_parallel_big(rng, "PB1"), render.gen_parallel_big(rng, "PB2", ismap=True)]
     else:
         flows = [p for p in progs if p["dir"] == "flow"]
         pars = [p for p in progs if p["dir"] == "parallel"]
@@ -39,6 +42,11 @@ def make_corpus(c, nflow, npar, nscen, seed_off=0, par_exec=0, features=None, pr
     render.write_module(root, pk)
     jobs, k = [], 0
     for p in flows + pars:
+        if p.get("big"):
+            for sc in render.big_scenarios(rng, p):
+                k += 1
+                jobs.append(dict(exec=k, prog=p["name"], sc=sc, par=1))
+            continue
         scs = [render.gen_scenario(rng, p, "ok") for _ in range(2)] + slow_scenarios(rng, p)
         scs += render.fault_scenarios(rng, p)
         scs += [render.gen_scenario(rng, p, "mixed") for _ in range(nscen)]
